@@ -1,5 +1,5 @@
 """Case generation and oracles for the parse properties C01-C04 (one shared engine, one oracle per property)."""
-import os, shutil, random
+import os, random, shutil
 import pandas as pd
 import vlib, docs, nsgen, parsecmp, uaconv, c08
 from vlib import Sym
@@ -205,6 +205,65 @@ def malformed(rng, ds):
     elif kind == "no-nodes": d["nodes"] = []
     return ds, kind
 
+class _Collect:
+    def __init__(self): self.fails = []
+    def record(self, *a, **k): pass
+    def fail(self, sig, case, detail): self.fails.append((sig, detail))
+def big_document(ctx, prop, work, rng, n=None, salt=None):
+    """one document with more node elements than fit in the parser's real batch (100000 start/end events), judged by the oracle alone"""
+    n = n or 50100 + rng.randrange(400)
+    classes = ["UAObject", "UAVariable", "UAObjectType", "UAMethod"]
+    out = ['<?xml version="1.0" encoding="utf-8"?>\n<UANodeSet xmlns="%s">\n<NamespaceUris><Uri>urn:big</Uri></NamespaceUris>\n<Aliases><Alias Alias="HasComponent">i=47</Alias><Alias Alias="Int32">i=6</Alias></Aliases>\n' % docs.NS_NODESET if hasattr(docs, "NS_NODESET") else
+           '<?xml version="1.0" encoding="utf-8"?>\n<UANodeSet xmlns="http://opcfoundation.org/UA/2011/03/UANodeSet.xsd">\n<NamespaceUris><Uri>urn:big</Uri></NamespaceUris>\n<Aliases><Alias Alias="HasComponent">i=47</Alias><Alias Alias="Int32">i=6</Alias></Aliases>\n']
+    want = {}
+    salt = salt if salt is not None else rng.randrange(1000)
+    for k in range(1, n + 1):
+        cls = classes[(k + salt) % 4]; a = ""
+        if cls == "UAVariable":
+            a = ' DataType="%s"' % ("Int32" if k % 3 else "i=6")
+            if k % 5 == 0: a += ' ValueRank="%d"' % (k % 3 - 1)
+        if k % 7 == 0: a += ' SymbolicName="S%d"' % k
+        if k % 11 == 0 and k > 1: a += ' ParentNodeId="ns=1;i=%d"' % (k - 1)
+        ref = '<References><Reference ReferenceType="HasComponent" IsForward="false">ns=1;i=%d</Reference></References>' % (k // 2) if k > 1 else ""
+        out.append('<%s NodeId="ns=1;i=%d" BrowseName="1:N%d"%s><DisplayName>D%d</DisplayName>%s</%s>\n' % (cls, k, k, a, k, ref, cls))
+        want[k] = (cls, "N%d" % k, "D%d" % k, ("S%d" % k) if k % 7 == 0 else None, (k - 1) if (k % 11 == 0 and k > 1) else None, cls == "UAVariable", (k // 2) if k > 1 else None)
+    out.append("</UANodeSet>\n")
+    files = [("big.xml", "".join(out))]
+    from opcua_tools.nodeset_parser import parse_xml_files
+    os.makedirs(work, exist_ok=True)
+    open(os.path.join(work, "big.xml"), "w", encoding="utf-8").write(files[0][1])
+    ctx.record(dict(case="big-document", nodes=n), True, ["big-document"])
+    try: raw = parse_xml_files([os.path.join(work, "big.xml")])
+    except BaseException as e: ctx.fail("%s/big-document-raises" % prop, dict(kind="big", nodes=n, salt=salt), type(e).__name__); return
+    nodes = raw["nodes"]; refs = raw["references"]
+    bad = []
+    if prop in ("C01", "C04"):
+        if len(nodes) != n: bad.append("%d rows for %d node elements" % (len(nodes), n))
+        seen = set()
+        sym = nodes["SymbolicName"] if "SymbolicName" in nodes.columns else None
+        for pos, (nid, cls, bn, dn) in enumerate(zip(nodes["NodeId"], nodes["NodeClass"], nodes["BrowseName"], nodes["DisplayName"])):
+            k = int(nid.value); w = want.get(k)
+            if w is None or k in seen or nid.namespace != 1: bad.append("unexpected or repeated NodeId %r" % (nid,)); break
+            seen.add(k)
+            s = None if sym is None or pd.isna(sym.iloc[pos]) else sym.iloc[pos]
+            if (cls, bn, dn, s) != (w[0], w[1], w[2], w[3]): bad.append("row of %r carries %r" % (nid, (cls, bn, dn, s))); break
+        if prop == "C01" and not bad:
+            lk = raw["lookup_df"]["uniques"] if "lookup_df" in raw else None
+            par = nodes["ParentNodeId"]; dt = nodes["DataType"]
+            for pos, nid in enumerate(nodes["NodeId"]):
+                k = int(nid.value); w = want[k]
+                p_ = par.iloc[pos]; d_ = dt.iloc[pos]
+                pv = None if pd.isna(p_) else int(lk.iloc[int(p_)].value) if lk is not None else None
+                if (w[4] is None) != pd.isna(p_) or (w[4] is not None and lk is not None and pv != w[4]): bad.append("ParentNodeId of i=%d is %r" % (k, p_)); break
+                if w[5] != (not pd.isna(d_)): bad.append("DataType of i=%d is %r" % (k, d_)); break
+    if prop == "C02":
+        lk = raw["lookup_df"]["uniques"]
+        got = sorted((int(lk.iloc[int(s)].value), int(lk.iloc[int(t_)].value)) for s, t_ in zip(refs["Src"], refs["Trg"]))
+        exp = sorted((k // 2, k) for k in range(2, n + 1))
+        if got != exp: bad.append("%d reference rows for %d declared; first difference %r" % (len(got), len(exp), next(((a, b) for a, b in zip(got, exp) if a != b), None)))
+    for b_ in bad[:1]:
+        ctx.fail("%s/big-document" % prop, dict(kind="big", nodes=n, salt=salt), b_)
+
 def run(ctx, prop):
     rng = ctx.rng
     work = os.path.join(vlib.WORK, "%s_%d" % (prop, os.getpid()))
@@ -222,6 +281,8 @@ def run(ctx, prop):
                 allu = [UA] + g.uris
                 perm = g.uris[:]; rng.shuffle(perm)
                 callers += [[UA] + perm, [UA] + perm[:1] + ["None"] + perm[1:], [UA] + perm + ["urn:unused"]]
+                # partial lists (the unlisted URIs are appended by the parser) with one or several gaps
+                callers += [[UA, "None", "None"] + perm[:1], [UA, "None"] + perm[-1:] + ["None"], [UA] + perm[:1] + ["None", "None", "urn:unused", "None"]]
             outs = []
             for caller in callers:
                 out, _ = parsecmp.impl_parse(work, files, caller)
@@ -238,6 +299,39 @@ def run(ctx, prop):
                     elif prop == "C04": fl = oracle_c04(out)
                     for sig, detail in fl:
                         ctx.fail(sig, dict(kind="docset", seed=ctx.seed, case=ci, caller=caller, files=files), detail)
+                elif out[0] == "ok":
+                    # a caller list that names only some of the URIs: files none of whose models is listed are left out (documented);
+                    # the result denotes what parsing the remaining files without a list denotes
+                    def listed(name, d):
+                        if name.endswith("Opc.Ua.NodeSet2.xml"): return True
+                        return any(v in caller for m in (d["models"] or []) for k, v in m["attrs"] if k == "ModelUri")
+                    keep = [n for n, d, _ in ds if listed(n, d)]
+                    if keep and all(d["models"] for _, d, _ in ds):
+                        ref_out, _ = parsecmp.impl_parse(work + "_sub", [f for f in files if f[0] in keep], None)
+                        shutil.rmtree(work + "_sub", ignore_errors=True)
+                        if ref_out[0] == "ok":
+                            d0 = denotation(ref_out); d1 = denotation(out)
+                            if prop in ("C01", "C03") and d0[0] != d1[0]:
+                                ctx.fail("%s/denotation-depends-on-caller-list" % prop, dict(kind="docset", seed=ctx.seed, case=ci, caller=caller, files=files), "node rows differ at URI level with the caller list %r" % (caller,))
+                            if prop in ("C02", "C03") and d0[1] != d1[1]:
+                                ctx.fail("%s/denotation-depends-on-caller-list" % prop, dict(kind="docset", seed=ctx.seed, case=ci, caller=caller, files=files), "reference triples differ at URI level with the caller list %r" % (caller,))
+            # documents larger than the parser's internal batch: the batch is an argument of iterparse_xml (default 100000 events), so
+            # the same documents are parsed again with a batch of a few dozen events and must give the same tables.
+            # (A batch that closes without any node element in it makes the unchanged code raise AttributeError; with the real batch size
+            # that needs ~50000 consecutive aliases, so such a run is skipped rather than judged.)
+            if outs[0][1][0] == "ok":
+                from opcua_tools import nodeset_parser as NP
+                saved = NP.iterparse_xml.__defaults__
+                try:
+                    for b in rng.sample([24, 32, 41, 50, 64, 101], 2):
+                        NP.iterparse_xml.__defaults__ = (b,)
+                        outb, _ = parsecmp.impl_parse(work, files, None)
+                        ctx.record(dict(case=ci, batch=b, files=[n for n, _ in files]), True, ["small-batch"])
+                        if outb[0] == "err" and outb[1] == "AttributeError": continue
+                        if outb != outs[0][1]:
+                            ctx.fail("%s/depends-on-batch" % prop, dict(kind="docset-batch", batch=b, files=files), "with a batch of %d events the result differs: %s" % (b, parsecmp.diff(outb, outs[0][1])[:200]))
+                finally:
+                    NP.iterparse_xml.__defaults__ = saved
             # metamorphic variants for C03 (and C02): other serialisations of the same graph denote the same thing
             if prop in ("C02", "C03") and outs[0][1][0] == "ok":
                 base = denotation(outs[0][1])
@@ -267,6 +361,9 @@ def run(ctx, prop):
                 ctx.record(dict(case=ci, malformed=kind), True, ["malformed=" + kind])
     finally:
         shutil.rmtree(work, ignore_errors=True)
+    if prop in ("C01", "C02", "C04"):
+        try: big_document(ctx, prop, work + "_big", random.Random(ctx.seed * 7919 + 17))
+        finally: shutil.rmtree(work + "_big", ignore_errors=True)
     ans = vlib.run_model(reqs, shards=12)
     for (stream, ci, caller, out, kind), a in zip(meta, ans):
         mo = parsecmp.dec_model(a)
@@ -291,6 +388,20 @@ def oracle_case(case):
     """replay of a stored document set"""
     work = os.path.join(vlib.WORK, "replay_%d" % os.getpid())
     try:
+        if case.get("kind") == "big":
+            c = _Collect(); prop = case.get("prop", "C01")
+            for pr in ("C01", "C02"): big_document(c, pr, work, None, case["nodes"], case["salt"])
+            return c.fails
+        if case.get("kind") == "docset-batch":
+            from opcua_tools import nodeset_parser as NP
+            files = [tuple(f) for f in case["files"]]
+            ref, _ = parsecmp.impl_parse(work, files, None)
+            saved = NP.iterparse_xml.__defaults__
+            try:
+                NP.iterparse_xml.__defaults__ = (case["batch"],)
+                outb, _ = parsecmp.impl_parse(work, files, None)
+            finally: NP.iterparse_xml.__defaults__ = saved
+            return [] if outb == ref else [("depends-on-batch", "with a batch of %d events the result differs" % case["batch"])]
         if case.get("kind") == "xml":
             out, res = parsecmp.impl_parse(work, [tuple(f) for f in case["files"]], case.get("caller"))
             if out[0] != "ok": return [("C01/parse-raises", out[1])]
